@@ -90,6 +90,18 @@ fn main() {
                     ctors::run(&ctx);
                     ctx.finish("case = one constructor call; (1) exhaustive cross product of the per-type special-value lattice for every constructor and float type, (2) proptest-random tuples (any bit pattern, biased to the lattice) with shrinking; oracle = three-valued table transcribed from the doc comments (MustErr(variants)/MustOk/Unspecified) + no panic + accessors bit-equal; non-trivial = tuple contains a lattice value", &["Appendix C of DESIGN.md is a faithful transcription of the doc comments", "Hypergeometric tuples with construction cost > 2^27 loop steps are skipped (counted)"], false)
                 }
+                "C08" => {
+                    weighted::run_c08(&ctx);
+                    ctx.finish("per weight type (u8..u128, usize, i8..i128, f32, f64): (1) exhaustive vectors of length <= 6 (floats <= 5) over {0,1,2,3,M-1,M,M+1} + negative/MIN/NaN/inf/-0: error spec in exact arithmetic and weights() reconstruction; (2) proptest-random vectors up to length 10^4 with magnitude mixes (shrinking); (3) sampled vectors: frequency test per index (KL-Chernoff, confirmed on 4n), zero-weight index never returned, boundary-lattice words on both draws; non-trivial = >= 2 distinct non-zero weights or an error class", &ASSUME_LAW, false)
+                }
+                "C09" => {
+                    weighted::run_c09(&ctx);
+                    ctx.finish("history = new(ws) followed by push/pop/update ops interpreted against a Vec model of exact values; after every step len/is_empty/is_valid/get(i) for all i/pop value/== fresh build (integers)/error spec/unchanged-on-error are compared; exhaustive: u8 and i8, all start vectors of length <= 3 x all histories to the tier depth over a 5-letter alphabet and indices 0..3; random: proptest histories of up to 400 ops for all 13 weight types with shrinking; non-trivial = history contains a level-opening push, an inner-node update, a pop across a level boundary or an error-returning op", &["indices are generated in range only (i mod len)", "float trees: get compared within 4 len eps sum; float total overflowing to +inf not judged"], false)
+                }
+                "C10" => {
+                    weighted::run_c10(&ctx);
+                    ctx.finish("state = tree reached by a generated history (fresh builds and up to 60 random mutations; lengths 1..10^4 incl. non-power-of-two shapes); per state: boundary-lattice words (incl. integer-range boundaries, top/bottom 4096 float mantissas) at positions 0..1 -> no panic / no zero-weight index / InsufficientNonZero iff empty or all-zero; frequency test vs current weights (confirmed on 4n); f32 trees: all 2^23 targets of the float draw enumerated and the induced law compared exactly; non-trivial = >= 2 non-zero weights after >= 1 mutation, or a zero-weight inner node", &ASSUME_LAW, false)
+                }
                 _ => {
                     eprintln!("unknown property {id}");
                     2
